@@ -566,8 +566,8 @@ def r4_fixpoint_loops(ctx, chk, rule="C06.4"):
             where = f.where(L.node)
             c = L.cond
             # worklist: `while pending:` with a pop in the body
-            if c[0] == "truthy" and c[1][0] == "acc":
-                pend = c[1][2]
+            if c[0] == "truthy" and c[1][0] in ("acc", "res", "v"):
+                pend = c[1][2] if c[1][0] != "v" else c[1][1]
                 pops = [x for x in walk_no_nested_defs(L.node) if isinstance(x, ast.Call) and isinstance(x.func, ast.Attribute) and x.func.attr in ("pop", "popleft")
                         and isinstance(x.func.value, ast.Name) and x.func.value.id == pend]
                 if pops:
